@@ -168,10 +168,15 @@ class Ctx:
             return True
         return self._fail(label, neg, m, info)
 
-    def violation(self, label, info=None):
+    def violation(self, label, info=None, model=None, candidate=False):
         """the path itself is a violation (e.g. foreign exception)"""
-        m = self.eng.get_model()
-        return self._fail(label, z3.BoolVal(True), m, info)
+        m = model or self.eng.get_model()
+        n = len(self.res.violations)
+        r = self._fail(label, z3.BoolVal(True), m, info)
+        if candidate:
+            for v in self.res.violations[n:]:
+                v['candidate'] = True
+        return r
 
     def _fail(self, label, neg, m, info):
         regions = self._regions(label)
@@ -326,7 +331,7 @@ def run_check(prop, modname, jobs, tier, seed, level='model_checking', functions
                     sys.stderr.write('[%6.1fs] %-28s paths=%-5d left=%-4d pending=%d %s\n' % (
                         time.time() - t0, r['job'], pj['paths'], len(left), len(pending),
                         (r['inconclusive'] or [''])[0][:60]))
-                nviol[r['job']] = nviol.get(r['job'], 0) + len(r['violations'])
+                nviol[r['job']] = nviol.get(r['job'], 0) + len([x for x in r['violations'] if not x.get('candidate')])
                 if left and nviol[r['job']] >= 3:
                     agg['notes']['job-stopped-after-violations'] = \
                         agg['notes'].get('job-stopped-after-violations', 0) + 1
@@ -348,6 +353,7 @@ def run_check(prop, modname, jobs, tier, seed, level='model_checking', functions
         lines.append('KNOWN-FINDING: property=%s %s [%s]' % (prop, kf_by_id[k]['what'], k))
     confirmed = []
     unconfirmed = []
+    dismissed = []
     if agg['violations'] and replay is not None:
         seen = set()
         for v in agg['violations']:
@@ -360,7 +366,12 @@ def run_check(prop, modname, jobs, tier, seed, level='model_checking', functions
             except Exception as e:
                 ok, detail = False, 'replay raised %r' % (e,)
             v['replay_detail'] = detail
-            (confirmed if ok else unconfirmed).append(v)
+            if ok:
+                confirmed.append(v)
+            elif v.get('candidate'):
+                dismissed.append(v)     # solver-found candidate that needs a resource measurement
+            else:
+                unconfirmed.append(v)
     elif agg['violations']:
         unconfirmed = agg['violations']
     os.makedirs(os.path.join(VERIF, 'replays'), exist_ok=True)
@@ -413,6 +424,7 @@ def run_check(prop, modname, jobs, tier, seed, level='model_checking', functions
         'outcomes': agg['notes'],
         'inconclusive_paths': len(agg['inconclusive']),
         'known_findings_hit': sorted(agg['known']),
+        'candidates_dismissed_by_replay': len(dismissed),
         'per_job': {k: {kk: (round(vv, 2) if isinstance(vv, float) else vv) for kk, vv in v.items()}
                     for k, v in sorted(agg['per_job'].items())},
     }
